@@ -39,27 +39,31 @@ Matches(st, rootHlogged) ==
         /\ lock'[n] = QCofJ(st[n].lock)
         /\ committed'[n] = Opt(st[n].committed)
 
+\* A Byzantine validator can SEND anything, e.g. a leader message around a certificate that does not exist
+\* (too few genuine signatures).  The receiver drops it at delivery, which for the phase handler is the same
+\* as no message: such a message is replaced by None.  Likewise a gossiped block / offered lock that the
+\* receiver's gate refuses is a step that changes nothing.
+EffP(a)  == LET m == MsgOfJ(a.m) IN IF m \in MsgsP(a.n) THEN m ELSE None
+EffQ(a, p) == LET m == MsgOfJ(a.m) IN IF m \in MsgsQ(a.n, p) THEN m ELSE None
+Refused == UNCHANGED <<rootH, rh, rnd, ph, blk, ldr, lock, committed, votes, pmsgs, pm>> /\ last' = [a |-> "Refused"]
+
 Act(a) ==
    CASE a.a = "ElectionVote"  -> ElectionVote(a.n, a.l)
      [] a.a = "Propose"       -> Propose(a.n, SetOf(a.S), a.fresh)
-     [] a.a = "ProposeVote"   -> ProposeVote(a.n, MsgOfJ(a.m))
+     [] a.a = "ProposeVote"   -> ProposeVote(a.n, EffP(a))
      [] a.a = "Precommit"     -> Precommit(a.n, SetOf(a.S))
-     [] a.a = "PrecommitVote" -> PrecommitVote(a.n, MsgOfJ(a.m))
+     [] a.a = "PrecommitVote" -> PrecommitVote(a.n, EffQ(a, "PC"))
      [] a.a = "Commit"        -> Commit(a.n, SetOf(a.S))
-     [] a.a = "CommitProcess" -> CommitProcess(a.n, MsgOfJ(a.m))
-     [] a.a = "AdoptLock"     -> AdoptLock(a.n, QCofJ(a.q))
-     [] a.a = "GossipCommit"  -> GossipCommit(a.n, QCofJ(a.q))
+     [] a.a = "CommitProcess" -> CommitProcess(a.n, EffQ(a, "C"))
+     [] a.a = "AdoptLock"     -> IF QCofJ(a.q) \in OfferedLocks(a.n) /\ (lock[a.n] = None \/ Less(lock[a.n], QCofJ(a.q)))
+                                 THEN AdoptLock(a.n, QCofJ(a.q)) ELSE Refused
+     [] a.a = "GossipCommit"  -> IF QCofJ(a.q) \in Gossipable /\ committed[a.n] = None THEN GossipCommit(a.n, QCofJ(a.q)) ELSE Refused
      [] a.a = "Pacemaker"     -> Pacemaker(a.n, a.r)
      [] a.a = "Reset"         -> Reset(a.n)
      [] a.a = "RootBump"      -> RootBump
      [] OTHER                 -> FALSE
 
-\* messages must be ones that exist in the spec's world, too
-MsgExists(a) ==
-   CASE a.a = "ProposeVote"   -> MsgOfJ(a.m) \in MsgsP(a.n) \cup {None}
-     [] a.a = "PrecommitVote" -> MsgOfJ(a.m) \in MsgsQ(a.n, "PC") \cup {None}
-     [] a.a = "CommitProcess" -> MsgOfJ(a.m) \in MsgsQ(a.n, "C") \cup {None}
-     [] OTHER -> TRUE
+MsgExists(a) == TRUE
 
 ReInit ==
    /\ rootH' = 1
